@@ -11,7 +11,10 @@ PROP = dict(
              "{none, inactive / zero / 2^64-1 prices, drained module accounts, liquidity batch size 0, liquidation batch size 2^63-1 / "
              "2^63 / 2^64-1 set through the parameter-change proposal handler after vaults were created by messages past the stored sweep "
              "offset, English auctions switched off in the app's liquidation whitelisting, and - FABRICATED, model validation only - vault "
-             "counter +1 / +random / -1 set directly through the keeper}) with all 13 block hooks called directly, or (hook, state) with a "
+             "counter +1 / +random / -1 set directly through the keeper}) with all 13 block hooks called directly, or a HISTORY of the unwrapped "
+             "market hook (window size 1-4, accepted gap 0 / 20 / 40 / 60 blocks, oracle answers that go to zero for fewer / exactly / more "
+             "blocks than the gap with the ring index anywhere in the window, refill, answer lists shorter / longer than the list of priced "
+             "assets, discard requests; one hook line per block), or (hook, state) with a "
              "failure injected at store-gas consumption k of the hook run (quick: first / last / every 7th k of every ApplyFuncIfNoError "
              "instance and of every unwrapped unit; thorough: every k), or an ERROR case: a reachable state in which a unit RETURNS AN ERROR "
              "after it has written - v2.vault (a vault on a fixed-price extended pair whose debt asset has no oracle price: collateral sent, "
